@@ -237,7 +237,11 @@ pub fn eval(n: &Node, at: C) -> R {
                     if near_imag_beyond(z, |y| y.abs() >= 1.0 - 1e-6) {
                         return RV::Unspec("U3: atan on a branch cut");
                     }
-                    approx(q, if z.norm() < 1e-8 { z } else { z.atan() })
+                    approx(q, {
+                        // atan(z) = -i atanh(iz)
+                        let w = atanh_acc(C::new(-z.im, z.re));
+                        C::new(w.im, -w.re)
+                    })
                 }
                 Asinh => {
                     if near_imag_beyond(z, |y| y.abs() >= 1.0 - 1e-6) {
@@ -255,7 +259,7 @@ pub fn eval(n: &Node, at: C) -> R {
                     if near_real_beyond(z, |x| x.abs() >= 1.0 - 1e-6) {
                         return RV::Unspec("U3: atanh on a branch cut");
                     }
-                    approx(q, if z.norm() < 1e-8 { z } else { z.atanh() })
+                    approx(q, atanh_acc(z))
                 }
                 _ => RV::Unspec("not complex"),
             }
@@ -270,12 +274,24 @@ fn asinh_acc(z: C) -> C {
         return -asinh_acc(-z);
     }
     let n = z.norm();
-    if n < 1e-8 {
-        z
+    if n < 1e-3 {
+        // four terms of the series: the next one is below 1e-27 relative
+        let z2 = z * z;
+        z * (C::new(1.0, 0.0) - z2 / 6.0 + z2 * z2 * (3.0 / 40.0) - z2 * z2 * z2 * (15.0 / 336.0))
     } else if n > 1e150 {
         z.ln() + std::f64::consts::LN_2
     } else {
         z.asinh()
+    }
+}
+
+/// atanh with the series below 1e-3 (the library's (ln(1 + z) - ln(1 - z)) / 2 loses a small z against 1)
+fn atanh_acc(z: C) -> C {
+    if z.norm() < 1e-3 {
+        let z2 = z * z;
+        z * (C::new(1.0, 0.0) + z2 / 3.0 + z2 * z2 / 5.0 + z2 * z2 * z2 / 7.0)
+    } else {
+        z.atanh()
     }
 }
 
